@@ -75,6 +75,7 @@ Definition main_code (f : file) (text : list int) : N :=
            if negb (pfile_valid pf) then 5
            else if negb (forallb (fun m => tags_hyp (msg_members m)) (file_msgs f)) then 6
            else if negb (forallb (fun m => goa_accepts TopPlain (msg_members m)) (file_msgs f)) then 7
+           else if negb (forallb wf_msg_src (file_msgs f)) then 8
            else 0
          end
   end.
@@ -84,7 +85,8 @@ Definition mismatches (cs : list (int * file * list int)) : list N :=
      match main_code f real with 0 => [] | code => [8 * n_of i + code] end end) cs.
 
 Definition name_mismatches (cs : list (int * str * str)) : list N :=
-  flat_map (fun c => match c with (i, n, got) => if str_eqb (field_name n) got then [] else [n_of i] end) cs.
+  flat_map (fun c => match c with (i, n, got) =>
+     if str_eqb (field_name n) got && implb (letter_led n) (ident_ok got) then [] else [n_of i] end) cs.
 
 Fixpoint strs_eqb (a b : list str) : bool :=
   match a, b with
